@@ -187,3 +187,32 @@ func ZZH_C05_report_multi_step() {
 		zz.Assert("C05.report.inv-success", zz.Implies(post.GlobalState == pb.TransactionStatus_SUCCESS, s == pb.TransactionStatus_SUCCESS))
 	}
 }
+
+// ZZH_C05_notify_routing: rollback notices for destination chains are filed under each
+// child's own destination chain; source notices under the source chain.
+func ZZH_C05_notify_routing() {
+	ic := zzNewICWorld()
+	w := ic.w
+	w.height = 7
+	ids := []string{"1356:chA:s1-1356:chB:s2-1", "1356:chA:s1-1356:chC:s3-1", "1356:chA:s1-1356:chB:s2-2"}
+	n := 2 + zz.Choice("n", 2)
+	ids = ids[:n]
+	toSrc := zz.Choice("toSrc", 2) == 1
+	ic.im.addToMultiTxNotifyMap(w.height, ids, toSrc)
+	var m map[string][]string
+	ok := w.getObj(zzInterchainAddr, MultiTxNotifyKey(w.height), &m)
+	zz.Assert("C05.routing.stored", ok)
+	for _, id := range ids {
+		_, to, _, _ := pb.ParseIBTPID(id)
+		_, chain, _, _ := pb.ParseFullServiceID(to)
+		if toSrc {
+			chain = "chA"
+		}
+		zz.Assert("C05.routing.own-chain", zzContains(m[chain], id))
+		for c, l := range m {
+			if c != chain {
+				zz.Assert("C05.routing.not-elsewhere", !zzContains(l, id))
+			}
+		}
+	}
+}
